@@ -64,7 +64,9 @@ func ForLookup(domain string) (string, error) {
 	// Side note: strings.ToLower does not support full case-folding, so it is
 	// important to apply NFC normalization first.
 	uDomain = norm.NFC.String(uDomain)
-	uDomain = strings.ToLower(uDomain)
+	// The lower case form is not necessarily composed: U+03AA U+0301 is, but
+	// U+03CA U+0301 it becomes is U+0390 in NFC.
+	uDomain = norm.NFC.String(strings.ToLower(uDomain))
 	uDomain = strings.TrimSuffix(uDomain, ".")
 	return uDomain, nil
 }
